@@ -173,7 +173,9 @@ inductive TK where
   | typeOf             -- `type(obj)`
   | inspect            -- `get_methods(LOCAL_ATTRS, obj)`
   | probeConn          -- `hasattr(obj, "____conn__")`
-  | mkclass            -- `netref.class_factory(id_pack, methods)`
+  | modLookup          -- `sys.modules.get(prefix)` in `netref.class_factory` (a lookup, never an import)
+  | modGetattr         -- `getattr(module, class_name, None)` in `netref.class_factory`
+  | mkclass            -- the rest of `netref.class_factory(id_pack, methods)`: one method per entry, `type(...)`
   | cleanup            -- `self._local_root.on_disconnect(self)`
   deriving DecidableEq, Repr, Inhabited
 
@@ -574,14 +576,36 @@ def PV.truthy : PV → Bool
 
 def zeroIid (v : Val) : Bool := pyEqNat v 0
 
+def isNone : PV → Bool
+  | .imm .none => true
+  | _ => false
+
+/-- the `(module prefix, class name)` candidates `netref.class_factory` tries for a dotted name, in its order: the whole
+name, then every cut at a `.` from the right (`cursor = name_pack[:cursor].rfind('.')`) -/
+def dotCuts (name : PyStr) : List (PyStr × PyStr) :=
+  (name, []) :: (((List.range name.length).reverse.filter (fun i => name[i]? == some 46)).map
+    (fun i => (name.take i, name.drop (i + 1))))
+
+/-- the name resolution of `netref.class_factory`: `sys.modules.get(prefix)` for each candidate until one is there,
+then ONE `getattr(module, rest, None)`.  Nothing is imported: a module that is not already in `sys.modules` is skipped. -/
+def classLookup : List (PyStr × PyStr) → M Unit
+  | [] => pure ()
+  | (p, cn) :: rest => do
+    let m ← prim { kind := .modLookup, subj := .imm (.str p) }
+    if isNone m then classLookup rest
+    else do
+      let _ ← prim { kind := .modGetattr, subj := m, args := [.imm (.str cn)] }
+      pure ()
+
 /-- `_netref_factory(id_pack)`: class from the per-connection cache (classes only), from the builtin cache,
-or after asking the peer (`HANDLE_INSPECT`) -/
+or after asking the peer (`HANDLE_INSPECT`) and building it (`netref.class_factory`) -/
 def netrefFactory (idp : IdPack) : M Unit := do
   let st ← getSt
   if zeroIid idp.2.2 && st.classes.any (idpEq idp) then pure ()
   else if Gen.Handlers.builtinNetrefNames.contains idp.1 then pure ()
   else do
     let methods ← requestTop Gen.Handlers.handleInspect [.imm (.tuple [.str idp.1, idp.2.1, idp.2.2])]
+    classLookup (dotCuts idp.1)
     let _ ← prim { kind := .mkclass, subj := .imm (.tuple [.str idp.1, idp.2.1, idp.2.2]), args := [methods] }
     if zeroIid idp.2.2 then modify (fun st => { st with classes := st.classes ++ [idp] }) else pure ()
 
@@ -677,10 +701,6 @@ def checkAttrM (obj : PV) (n : PyStr) (op : Op) : M PyStr := do
     let b1 ← probeIf (prefixTruthy cfg) obj (twin cfg n)
     let b2 ← probeIf (plainAllowed cfg n && b1) obj n
     liftE (checkAttr cfg (hasOf cfg n b1 b2) n op)
-
-def isNone : PV → Bool
-  | .imm .none => true
-  | _ => false
 
 /-- `_access_attr(obj, name, args, overrider, param, default)` -/
 def accessAttr (obj name : PV) (extra : List PV) (op : Op) : M PV := do
@@ -1194,5 +1214,11 @@ def modelledTouches : List (String × List String) :=
    ("_handle_repr", ["repr"]),
    ("_handle_setattr", ["self._access_attr"]),
    ("_handle_str", ["str"])]
+
+/-- everything `netref.class_factory` calls (compare `Gen.Handlers.classFactoryCalls`): the name of a proxied class is
+resolved with `sys.modules.get` and one `getattr` — `classLookup` above; nothing in this list imports -/
+def modelledClassFactoryCalls : List String :=
+  ["<call:expr>", "NetrefClass", "_make_method", "_normalized_builtin_types.get", "getattr", "hasattr",
+   "index:id_pack", "len", "str", "sys.modules.get", "type"]
 
 end Rpyc.Handlers
